@@ -18,7 +18,7 @@ sys.path.insert(0, os.path.join(VERIF, 'tools'))
 import plan as PLAN   # noqa: E402
 
 BUILD = os.path.join(VERIF, 'build')
-EVID = os.path.join(VERIF, 'evidence')
+EVID = os.environ.get('CDSV_EVID_DIR') or os.path.join(VERIF, 'evidence')   # the override is used by tools/run_mutant.py only
 NCPU = os.cpu_count() or 4
 
 
